@@ -1175,6 +1175,12 @@ class SQLModel:
                 )
                 for k in excess_sub_declared_keys:
                     del subsql.declared_term_dependencies[k]
+                # columns come out in this node's order, as they do without the merge
+                merged_terms = OrderedDict()
+                for k in list(terms.keys()) + list(subsql.terms.keys()):
+                    if (k in subsql.terms) and (k not in merged_terms):
+                        merged_terms[k] = subsql.terms[k]
+                subsql.terms = merged_terms
                 # the merged step no longer computes what its original key describes
                 subsql.ops_key = f"extend({extend_node}, {subsql.terms.keys()})"
                 return subsql
